@@ -15,17 +15,17 @@ is overridden to return zeros and the specification's Objective is 0 (C03 is not
 Adapters
   DPP    DPPEnv, quota through generator_params["max_decaps"].
   MDPP   MDPPEnv constructed the public way, quota through generator_params["max_decaps"].
-         MDPPEnv.__init__ first builds a default DPPGenerator() (default data_dir "data/dpp/",
-         relative to the cwd; it would try to DOWNLOAD), so make_env temporarily chdir()s into
-         /verif/out/dpp_data/mdpp_cwd where synthetic files with the default names exist.
-         The environment keeps that default generator's max_decaps (20): see DPP.tla QuotaOfEnv.
-         Small family: the quota defect shadows everything else and needs few witnesses.
-  MDPPQ  the same, but env.max_decaps is set from env.generator after construction (what a
-         one-line fix would do), so that probe / keep-out masking of MDPP is checked beyond
-         that first defect.  (tag "mdpp_q")
+         MDPPEnv.__init__ first lets DPPEnv.__init__ build a default DPPGenerator() (default
+         data_dir "data/dpp/", relative to the cwd; it would try to DOWNLOAD), so make_env
+         temporarily chdir()s into /verif/out/dpp_data/mdpp_cwd where synthetic files with the
+         default names exist.  Since the fix "MDPP environment uses the quota and chip data of
+         its own generator" the environment then takes max_decaps / size / raw_pdn / decap / freq
+         from its own MDPPGenerator.  (FORMER behaviour: it kept the default generator's values,
+         max_decaps = 20 whatever generator_params said: episodes did not finish at the quota and
+         ran into dead ends.  A former adapter MDPPQ emulated the fix; it is gone.)
 The quota the environment object really works with (inst["envK"], used by PART 2 of DPP.tla only)
-is READ from the constructed object, so the model follows the code with or without that fix;
-the monitors (PART 1) always use the requested quota K.
+is READ from the constructed object, so the model follows the code; the monitors (PART 1) always
+use the requested quota K, so a regression of that fix is reported as C08 / C02 violations.
 """
 import os
 
@@ -186,7 +186,7 @@ class DPP(Adapter):
 class MDPP(DPP):
     name = "mdpp"
     variant = "mdpp"
-    layouts = {"quick": MQUICK[:2], "thorough": MQUICK}     # the quota defect needs few witnesses
+    layouts = {"quick": MQUICK, "thorough": MQUICK + MMORE}
 
     def gen_params(self, inst):
         p = DPP.gen_params(self, inst)
@@ -210,14 +210,3 @@ class MDPP(DPP):
         for r, i in enumerate(insts):
             p[r, i["probes"]] = True
         return p
-
-
-class MDPPQ(MDPP):
-    """MDPPEnv with max_decaps refreshed from its own generator (emulates the minimal fix)"""
-    tag = "mdpp_q"
-    layouts = {"quick": MQUICK, "thorough": MQUICK + MMORE}
-
-    def make_env(self, inst):
-        env = MDPP.make_env(self, inst)
-        env.max_decaps = env.generator.max_decaps
-        return env
